@@ -48,7 +48,7 @@ uint64_t REF_xxh64(const void* data, size_t len, uint64_t seed) {
 }
 
 /* ---- event hooks ---- */
-static size_t ref_window, ref_dictlen; static size_t ref_maxoff_violation = 0;
+static int ref_nosum = 0; static size_t ref_window, ref_dictlen; static size_t ref_maxoff_violation = 0;
 static void REF_ev_frame(frame_context_t* ctx) {
     ref_window = ctx->header.window_size; ref_dictlen = ctx->dict_content_len; ref_blocks = 0;
     if (ref_T) fprintf(ref_T, "{\"e\":\"rFrame\",\"n\":%zu,\"window\":%zu,\"fcs\":%lld,\"dictID\":%u,\"checksum\":%d,\"single\":%d,\"dictLen\":%zu}\n", ref_frame_no,
@@ -58,6 +58,8 @@ static void REF_ev_frame(frame_context_t* ctx) {
 }
 static void REF_ev_block(frame_context_t* ctx, int type, size_t len, int last, size_t pos, size_t regen) {
     (void)ctx;
+    /* Block_Maximum_Size = min(Window_Size, 128 KiB) bounds the regenerated size of every block and the size of a compressed block's body */
+    { size_t bmax = ref_window < 131072 ? ref_window : 131072; if (regen > bmax) REF_fail("block regenerates more than Block_Maximum_Size"); if (type == 2 && len > bmax) REF_fail("compressed block larger than Block_Maximum_Size"); }
     if (ref_T) fprintf(ref_T, "{\"e\":\"rBlock\",\"k\":%zu,\"type\":%d,\"csize\":%zu,\"last\":%d,\"pos\":%zu,\"regen\":%zu,\"nseq\":%zu,\"litMode\":%d,\"seqModes\":%d}\n",
                        ref_blocks, type, type == 1 ? (size_t)1 : len, last, pos, regen, type == 2 ? ref_nseq_block : (size_t)0, type == 2 ? ref_lit_mode : -1, type == 2 ? ref_seq_modes : -1);
     ref_blocks++; ref_nseq_block = 0; ref_seq_modes = 0;
@@ -78,11 +80,12 @@ static void REF_ev_frame_end(frame_context_t* ctx, const u8* start, size_t n) {
     if (ctx->header.content_checksum_flag) { calc = (uint32_t)REF_xxh64(start, n, 0); sumok = (calc == ref_stored_checksum); }
     if (ref_T) fprintf(ref_T, "{\"e\":\"rFrameEnd\",\"n\":%zu,\"size\":%zu,\"blocks\":%zu,\"checksumOK\":%s,\"fcsOK\":%s}\n", ref_frame_no, n, ref_blocks,
                        sumok ? "true" : "false", (!ctx->header.fcs_present || ctx->header.frame_content_size == n) ? "true" : "false");
-    if (!sumok) REF_fail("content checksum mismatch");
+    if (!sumok && !ref_nosum) REF_fail("content checksum mismatch");
     if (ctx->header.fcs_present && ctx->header.frame_content_size != n) REF_fail("frame content size mismatch");
     ref_frame_no++;
 }
 
+void REF_set_verify_checksum(int on) { ref_nosum = !on; }
 void REF_set_trace(FILE* f, int log_sequences) { ref_T = f; ref_seqlog = log_sequences; }
 const char* REF_last_error(void) { return ref_why; }
 
